@@ -92,6 +92,13 @@ fn arg_value(c: &Call, a: &[Value]) -> Value {
     if c.arg == 999_991 {
         return Value::String(format!("{}y", "z".repeat(1_099_999)));
     }
+    // 6 MB and 40 MB (one dedicated history in two shards)
+    if c.arg == 999_988 {
+        return Value::String("w".repeat(6_000_000));
+    }
+    if c.arg == 999_989 {
+        return Value::String("w".repeat(40_000_000));
+    }
     // arguments whose rendering is longer than 64 KiB (picked by one random history in 250)
     match c.arg {
         999_992 => return Value::String("x".repeat(70_000)),
@@ -109,8 +116,15 @@ fn arg_value(c: &Call, a: &[Value]) -> Value {
     a.get(c.arg).cloned().unwrap_or(Value::Int(c.arg as i128))
 }
 
-fn call_expr(c: &Call, a: &[Value]) -> Expr {
-    let arg = Expr::value(arg_value(c, a));
+/// where a call site takes its argument from: a literal, an input field, a symbol, a field of `facts` — the same value is the same
+/// argument wherever it comes from
+fn call_expr(c: &Call, a: &[Value], source: usize) -> Expr {
+    let arg = match source % 4 {
+        1 => Expr::reff(format!("v{}", c.arg)),
+        2 => Expr::symbol(format!("v{}", c.arg)),
+        3 => Expr::index(Expr::reff("facts"), reval::expr::Index::from(format!("v{}", c.arg).as_str())),
+        _ => Expr::value(arg_value(c, a)),
+    };
     let call = match c.inner {
         Some(i) => Expr::func(c.func, Expr::func(i, arg)),
         None => Expr::func(c.func, arg),
@@ -129,7 +143,9 @@ fn to_rules(calls: &[Call], cuts: &[usize], a: &[Value]) -> Vec<(String, Expr)> 
     let mut bounds: Vec<usize> = cuts.to_vec();
     bounds.push(calls.len());
     for (k, end) in bounds.into_iter().enumerate() {
-        let items: Vec<Expr> = calls[start..end].iter().map(|c| call_expr(c, a)).collect();
+        // short histories draw their arguments from all four sources (by position); the long ones use literals
+        let small = calls.len() <= 64;
+        let items: Vec<Expr> = calls[start..end].iter().enumerate().map(|(i, c)| call_expr(c, a, if small && c.arg < 999_000 { start + i + calls.len() } else { 0 })).collect();
         rules.push((format!("rule{k}"), if items.len() == 1 { items.into_iter().next().unwrap() } else { Expr::Vec(items) }));
         start = end;
     }
@@ -149,8 +165,15 @@ fn judge(ctx: &mut Ctx, calls: &[Call], cuts: &[usize], plan: FaultPlan, family:
         ctx.hit("histories-that-turn-cacheability-off-midway");
     }
     crate::instr::TOGGLE_CACHEABLE.store(start, std::sync::atomic::Ordering::SeqCst);
-    let fx: Fixture = build(&descs_toggled(start), &BTreeMap::new(), &rules, plan);
-    let facts = Value::None;
+    // every argument of a short history is also available as an input field and as a symbol of the same name
+    let mut table: BTreeMap<String, Value> = BTreeMap::new();
+    if calls.len() <= 64 {
+        for c in calls.iter().filter(|c| c.arg < 999_000) {
+            table.entry(format!("v{}", c.arg)).or_insert_with(|| arg_value(c, &a));
+        }
+    }
+    let fx: Fixture = build(&descs_toggled(start), &table, &rules, plan);
+    let facts = if table.is_empty() { Value::None } else { Value::Map(table.clone()) };
     let pred_flipped = if toggles { Some(fx.predict_with(&descs_toggled(!start), &facts)) } else { None };
     ctx.begin(|| format!("{family}\t{calls:?} cuts {cuts:?} faults {:?}", fx.plan.faults));
     ctx.count();
@@ -357,6 +380,11 @@ fn run(ctx: &mut Ctx) {
     {
         let calls: Vec<Call> = [("ca", 999_990), ("ca", 999_990), ("cb", 999_990), ("ca", 999_991), ("ca", 999_990), ("na", 999_991), ("ca", 999_991)].into_iter().map(|(f, arg)| Call { func: f, arg, inner: None }).collect();
         judge(ctx, &calls, &[3], FaultPlan::default(), "megabyte-arguments");
+        if ctx.shard < 2 {
+            let big = 999_988 + ctx.shard;
+            let calls: Vec<Call> = [("ca", big), ("ca", big), ("cb", big), ("ca", 999_990), ("ca", big)].into_iter().map(|(f, arg)| Call { func: f, arg, inner: None }).collect();
+            judge(ctx, &calls, &[2], FaultPlan::default(), "megabyte-arguments");
+        }
     }
     long_histories(ctx, ctx.tier.of(30, 300), ctx.tier.of(2, 6));
     exhaustive(ctx, ctx.tier.of(3, 4));
